@@ -337,4 +337,36 @@ def bToZnx128AvxCoef (x q mu p32 p16 crt hi mid lo : V4) (totalQ : Nat) : Int :=
                  reduceBAndApplyCrt x.l2 q.l2 mu.l2 p32.l2 p16.l2 crt.l2, reduceBAndApplyCrt x.l3 q.l3 mu.l3 p32.l3 p16.l3 crt.l3⟩
   crtTail totalQ (crtAccumulate t hi mid lo)
 
+/-! ### the `u64` tables and the Primes30 constant vectors, as the kernels read them -/
+section Tables
+open Ntt120
+
+def stepCOf (m : StepMeta) : StepC :=
+  { q2bs := BitVec.ofNat 64 m.q2bs, mask := BitVec.ofNat 64 m.mask, halfBs := BitVec.ofNat 64 m.halfBs, reduce := m.reduce }
+def levelCOf (l : Level) : LevelC := { m := stepCOf l.1, bs := l.1.bs, tw := l.2.map (BitVec.ofNat 64) }
+def redCOf (r : ReducK) : RedC := { h := BitVec.ofNat 64 r.h, mask := BitVec.ofNat 64 r.mask, cst := BitVec.ofNat 64 r.cst }
+
+/-- every field of the table is a `u64` (it is: the crate stores them in `u64` / `[u64; 4]` fields) -/
+def fitsLevel (l : Level) : Bool :=
+  decide (l.1.q2bs < 2 ^ 64) && decide (l.1.mask < 2 ^ 64) && decide (l.1.halfBs < 2 ^ 64) && l.2.all (fun x => decide (x < 2 ^ 64))
+def fitsTable (t : TableK) : Bool :=
+  t.levels.all fitsLevel && decide (t.reduc.h < 2 ^ 64) && decide (t.reduc.mask < 2 ^ 64) && decide (t.reduc.cst < 2 ^ 64)
+
+/-- `Q_VEC`, `BARRETT_MU`, `POW32_CRT`, `POW16_CRT`, `CRT_VEC`, `QM_HI/MID/LO`, `TOTAL_Q` of `arithmetic_avx.rs` -/
+def Q30 (k : Nat) : Nat := primes30.qs.getD k 1
+def CRT30 (k : Nat) : Nat := primes30.crt.getD k 0
+def totQ30 : Nat := primes30.q0 * primes30.q1 * primes30.q2 * primes30.q3
+def QM30 (k : Nat) : Nat := totQ30 / Q30 k
+def v4 (f : Nat → Nat) : V4 := ⟨BitVec.ofNat 64 (f 0), BitVec.ofNat 64 (f 1), BitVec.ofNat 64 (f 2), BitVec.ofNat 64 (f 3)⟩
+def qV : V4 := v4 Q30
+def muV : V4 := v4 (fun k => (compactCst (Q30 k) (CRT30 k)).1)
+def p32V : V4 := v4 (fun k => (compactCst (Q30 k) (CRT30 k)).2.1)
+def p16V : V4 := v4 (fun k => (compactCst (Q30 k) (CRT30 k)).2.2)
+def crtV : V4 := v4 CRT30
+def hiV : V4 := v4 (fun k => QM30 k / 2 ^ 64)
+def midV : V4 := v4 (fun k => QM30 k / 2 ^ 32 % 2 ^ 32)
+def loV : V4 := v4 (fun k => QM30 k % 2 ^ 32)
+
+end Tables
+
 end Avx.Ntt
